@@ -105,6 +105,11 @@ func vfWatcherSeq(rec *vfRec, sc map[string]any) {
 		return nil
 	}
 	watchDone := make(chan struct{})
+	// The watch context: cancelling it asks the OS-specific loop to stop, it does not end watching by itself (the stub
+	// loop ignores it, as a loop blocked in a netlink receive does for a while): subscribers stay open and served
+	// until the loop has really returned.
+	wctx, wcancel := context.WithCancel(context.Background())
+	defer wcancel()
 	go func() {
 		defer close(watchDone)
 		defer func() {
@@ -112,7 +117,7 @@ func vfWatcherSeq(rec *vfRec, sc map[string]any) {
 				perr = r
 			}
 		}()
-		_ = w.Watch(context.Background())
+		_ = w.Watch(wctx)
 	}()
 	var chans []<-chan Change
 	ended := false
@@ -170,6 +175,12 @@ func vfWatcherSeq(rec *vfRec, sc map[string]any) {
 			default:
 			}
 			rec.raw(map[string]any{"ev": "drain", "i": i + 1, "got": got, "closed": closed})
+		case "cancelctx":
+			wcancel()
+			for i := 0; i < 200 && !vfAllBlocked(); i++ {
+				time.Sleep(100 * time.Microsecond)
+			}
+			rec.raw(map[string]any{"ev": "cancelctx"})
 		case "end":
 			if !ended {
 				ended = true
